@@ -629,6 +629,9 @@ class Summarizer:
                 cci, cfn = tgt
                 body = [s for s in cfn.body if not (isinstance(s, ast.Expr) and isinstance(s.value, ast.Constant))]
                 if len(body) == 1 and isinstance(body[0], ast.Return) and body[0].value is not None:
+                    # a thin wrapper around a module-level function stays a call to the wrapper: rules know the method, not the helper
+                    if any(isinstance(x, ast.Call) and isinstance(x.func, ast.Name) and x.func.id in cci.module.functions for x in ast.walk(body[0].value)):
+                        return n
                     penv = summ._bind(cci, cfn, n, p)
                     env2 = {k: v for k, v in p.env.items() if k.startswith('self.')}
                     env2.update(penv)
